@@ -250,6 +250,7 @@ func runC09(c *Ctx, r *Rec) {
 		}
 		checkUnsignedSizeMinus(c, r, "D5-unsigned-size-minus", fds)
 		checkIndexGuardAdmitsLength(c, r, "D5-guard-excludes-the-length", fds)
+		checkCopiesTile(c, r, "D4-copies-tile", fds)
 	}
 	// ---- D6 reverse / shuffle
 	if fd := ms["ReverseValues"]; fd != nil {
